@@ -905,6 +905,8 @@ func runScenario(src string, kinds []int, frozen []bool, limit uint64) (res resu
 	steps0 := th.ExecutionSteps()
 	if limit > 0 {
 		th.SetMaxExecutionSteps(steps0 + limit)
+	} else {
+		th.SetMaxExecutionSteps(steps0 + safetyLimit) // a scenario that accepts a mutation of what it iterates may never end
 	}
 	func() {
 		defer func() {
@@ -976,8 +978,13 @@ type line struct {
 	VKey    string   `json:"vkey,omitempty"`
 }
 
+const safetyLimit = 300000
+
 // the Go-side oracle: the property text, nothing else
 func oracle(res result, frozen []bool, expects []expect, checkAttempts bool) string {
+	if checkAttempts && res.Outcome == "cancelled" {
+		return fmt.Sprintf("the scenario did not end within %d steps (a mutation during iteration was accepted?)", safetyLimit)
+	}
 	for i, n := range res.IC {
 		if !frozen[i] && n != 0 {
 			return fmt.Sprintf("collection %d still has itercount %d after the call returned", i, n)
